@@ -24,21 +24,23 @@ type Spelling struct {
 var Canonical = Spelling{Unit: "\t", Bullet: 0, FinalNL: true}
 
 // Units are the indentation units of the notation family.
-var Units = []string{"\t", " ", "  ", "   ", "    ", "        "}
+var Units = []string{"\t", " ", "  ", "   ", "    ", "        ", "\t\t", "\t\t\t"}
 
 var bulletChars = []string{"-", "*", "+"}
 
 func (s Spelling) String() string {
 	u := "TAB"
-	if s.Unit != "\t" {
+	if s.Unit[0] == '\t' && len(s.Unit) > 1 {
+		u = fmt.Sprintf("%dTAB", len(s.Unit))
+	} else if s.Unit != "\t" {
 		u = fmt.Sprintf("%dsp", len(s.Unit))
 	}
 	b := []string{"-", "*", "+", "mixed"}[s.Bullet]
 	return fmt.Sprintf("unit=%s bullet=%s heading=%d crlf=%v blanks=%d lead=%v finalNL=%v tight=%v", u, b, s.Heading, s.CRLF, s.Blanks, s.LeadBlank, s.FinalNL, s.Tight)
 }
 
-// AllSpellings enumerates the notation family (without leading blank line): 6 units x 4 bullet
-// policies x heading{0,1,2} x CRLF x blanks{0,1,2,3} x final newline x blank-after-bullet{always, sometimes omitted} = 1536; heading variants must
+// AllSpellings enumerates the notation family (without leading blank line): 8 units (one to three tabs, 1-8 spaces) x 4 bullet
+// policies x heading{0,1,2} x CRLF x blanks{0,1,2,3} x final newline x blank-after-bullet{always, sometimes omitted} = 2048; heading variants must
 // be filtered by CanHeading per forest.
 func AllSpellings(seed uint64) []Spelling {
 	var out []Spelling
@@ -240,11 +242,11 @@ func Inject(lines []Line, s Spelling, class string, pos int, variant int) (out [
 	case M3NotMultiple:
 		// only for units >= 2 spaces, only after the first indented line (which defines the unit),
 		// only on indented lines
-		if s.Unit == "\t" || len(s.Unit) < 2 || l.Depth < 2 || firstIndented < 0 || pos <= firstIndented {
+		if len(s.Unit) < 2 || l.Depth < 2 || firstIndented < 0 || pos <= firstIndented {
 			return nil, "", false
 		}
 		if variant%2 == 0 {
-			out[pos].Text = " " + l.Text
+			out[pos].Text = s.Unit[:1] + l.Text
 		} else {
 			out[pos].Text = l.Text[1:]
 		}
@@ -253,7 +255,7 @@ func Inject(lines []Line, s Spelling, class string, pos int, variant int) (out [
 			return nil, "", false
 		}
 		rest := l.Text[len(indent):]
-		if s.Unit == "\t" {
+		if s.Unit[0] == '\t' {
 			if variant%2 == 0 {
 				out[pos].Text = indent + " " + rest
 			} else {
